@@ -125,7 +125,7 @@ def check(rep, model, tier):
     noninterference(rep, model, 'compute_features_2d', grp.run2d, site)
     progress_bar_rule(rep, model)
     summ, det, rounds, ro = common.effects(model)
-    for name in ('compute_features_2d', '_proxy_2d'):
+    for name in ('compute_features_2d',):       # the proxies run in worker processes on pickled copies
         f = model.find(name)
         if summ[f.qual]['mut'] - ({'args'} if False else set()):
             a = det[f.qual]
